@@ -455,6 +455,18 @@ func c05Histories() []wParams {
 		// ... and the transfer ends on its own (the server is interrupted) while the menu is still open
 		{Dir: "up", Tree: "one:R:21000", Stop: &wStop{Side: "client", Step: 150, Via: "keys", ChoiceMs: 2500}, Stops: []wStop{{Side: "server", AtMs: 1200}}},
 		{Dir: "down", Tree: "one:R:21000", Stop: &wStop{Side: "client", Step: 150, Via: "keys", ChoiceMs: 2500, Continue: true}, Stops: []wStop{{Side: "server", AtMs: 1200}}},
+		// ... and the peer reports a failure of its own while the menu is open: the transfer is over before the user answers
+		{Dir: "down", Tree: "one:R:21000", Stop: &wStop{Side: "client", Step: 150, Via: "keys", ChoiceMs: 2500, Continue: true}, Stops: []wStop{{Side: "wire", AtMs: 1200}}},
+		{Dir: "down", Tree: "one:R:21000", Stop: &wStop{Side: "client", Step: 150, Via: "keys", ChoiceMs: 2500}, Stops: []wStop{{Side: "wire", AtMs: 1200}}},
+		{Dir: "up", Tree: "one:R:21000", Stop: &wStop{Side: "client", Step: 150, Via: "keys", ChoiceMs: 2500, Delete: true}, Stops: []wStop{{Side: "wire", AtMs: 1200}}},
+	}
+	// the peer's failure line and the user's Ctrl-C cross: the menu opens, the read in progress returns the
+	// failure and the transfer is over before the user answers (any of the three answers)
+	for step := 100; step <= 400; step += 30 {
+		for ans := 0; ans < 3; ans++ {
+			st := &wStop{Side: "client", Step: step, Via: "keys", ChoiceMs: 2500, Continue: ans == 2, Delete: ans == 1}
+			out = append(out, wParams{Dir: []string{"down", "up"}[(step/30)%2], Tree: "one:R:21000", LatencyMs: 200, Probe: true, Timeout: 3, Stop: st, Stops: []wStop{{Side: "wire", Step: step}}})
+		}
 	}
 	for _, a := range first {
 		a.Probe, a.Timeout = true, 3
@@ -473,7 +485,7 @@ func init() {
 		ID:    "C05",
 		Level: "exploration",
 		Rule: "(i) all 16 subsets of {drag detection, zmodem, OSC52, trace log} x output tokens (text, CSI, binary, scroll-back of a handshake and of a finished transfer, triggers with bad mode/version, every listed truncation, zmodem near-misses and vetoed headers, OSC52 fragments, trace-log near-misses) and input tokens (text, Ctrl-C, escape keys, path-like input naming files that do not exist in four styles, binary), " +
-			"each token with every single cut, token pairs in one and in two reads; (ii) every history of one or two transfers over {upload, download, refused, failed on the client, failed on the server, Ctrl-C keep/delete, server SIGINT, old-version server, Ctrl-C typed and answered through the menu (keep / delete / continue), the same with the server interrupted while the menu is open} followed by a probe in both directions; (iii) every history ending in a zmodem session over {download, upload} x helper {missing, exits 1, runs, silent, late} x remote {finishes, cancels, keeps sending, falls silent} x {no Ctrl-C, Ctrl-C}, after which the user types (Ctrl-C, text, CAN, escape key, a command; each a read of its own) before the remote side prints anything; (iv) a drag-and-drop upload attempt that starts no transfer x 6 ways the echo of the typed command arrives (one read, split, merged with what follows, after a ^C echo, byte-wise, none) x 3 later outputs that contain the command text as a read of its own x 8 option sets, with typed input afterwards; (v) the real trzsz binary wrapping sh for 4 exit codes x 3 output timings",
+			"each token with every single cut, token pairs in one and in two reads; (ii) every history of one or two transfers over {upload, download, refused, failed on the client, failed on the server, Ctrl-C keep/delete, server SIGINT, old-version server, Ctrl-C typed and answered through the menu (keep / delete / continue), the same with the server interrupted while the menu is open, and with a failure line from the peer crossing the Ctrl-C at 11 points of the transfer} followed by a probe in both directions; (iii) every history ending in a zmodem session over {download, upload} x helper {missing, exits 1, runs, silent, late} x remote {finishes, cancels, keeps sending, falls silent} x {no Ctrl-C, Ctrl-C}, after which the user types (Ctrl-C, text, CAN, escape key, a command; each a read of its own) before the remote side prints anything; (iv) a drag-and-drop upload attempt that starts no transfer x 6 ways the echo of the typed command arrives (one read, split, merged with what follows, after a ^C echo, byte-wise, none) x 3 later outputs that contain the command text as a read of its own x 8 option sets, with typed input afterwards; (v) the real trzsz binary wrapping sh for 4 exit codes x 3 output timings",
 		Assumptions: []string{"(v) is a process-level run in real time over a fixed menu (3 tries each); everything else runs under the scheduler", "the complete trace-log switch and genuine triggers / zmodem headers are not 'idle' input and are excluded"},
 		QuickBudget: 100, ThoroughBudget: 600, DiedIsViolation: true,
 		Jobs: func(tier string) []vs.Job {
